@@ -9,10 +9,19 @@ for pid, ent in static.items():
     path = os.path.join(ROOT, "lean", *ent["lean_module"].split(".")) + ".lean"
     names = []
     if os.path.exists(path):
+        ns = []
         for l in open(path):
+            m = re.match(r"^namespace\s+(\S+)", l)
+            if m:
+                ns.append(m.group(1))
+                continue
+            m = re.match(r"^end\s+(\S+)", l)
+            if m and ns and ns[-1] == m.group(1):
+                ns.pop()
+                continue
             m = re.match(r"^theorem\s+(%s_[A-Za-z0-9_']+)" % pid, l)
             if m:
-                names.append("Bebop." + m.group(1))
+                names.append(".".join(ns + [m.group(1)]))
     e = dict(ent)
     e["theorems"] = names
     reg[pid] = e
